@@ -31,7 +31,7 @@ ASSUMPTIONS = [
 CMDS = ["phase", "phase_ped", "phase_hp_lists", "genotype", "genotype_ped", "polyphase", "haplotag", "haplotagphase",
         "unphase", "stats", "compare", "split", "find_snv_candidates", "polyphase_pre", "polyphase_pre2", "polyphase_pre3",
         # option variants (the result must depend on files and options only, whatever the options are)
-        "split_largest", "compare_multi", "stats_gtf", "phase_distrust", "haplotag_regions", "find_snv_multi", "phase_lists_chr2"]
+        "split_largest", "compare_multi", "stats_gtf", "phase_distrust", "haplotag_regions", "find_snv_multi", "phase_lists_chr2", "stats_chroms_gz"]
 
 
 def design_mc(ctx):
@@ -183,7 +183,7 @@ def drive(sc):
             # inputs derived once (not judged): a phased VCF, its compressed copy, tagged BAM, haplotag list
             wd["opts"] = {}
             if cmd in ("unphase", "stats", "compare", "haplotag", "haplotagphase", "split", "split_largest", "compare_multi",
-                       "stats_gtf", "haplotag_regions"):
+                       "stats_gtf", "haplotag_regions", "stats_chroms_gz"):
                 exc, _, _ = PW.run_phase(wd, d, paths, out_name="phased.vcf")
                 assert exc == "", exc
                 shutil.copy(os.path.join(d, "phased.vcf"), os.path.join(d, "phased_copy.vcf"))
@@ -266,6 +266,9 @@ def drive(sc):
                 "phase_distrust": (["phase", "--reference", paths["ref"], "-o", "{out}/out.vcf", "--distrust-genotypes", "--include-homozygous",
                                     "--changed-genotype-list", "{out}/gt.tsv", "--output-read-list", "{out}/reads.tsv",
                                     paths["vcf"], paths["bam"]], ["out.vcf", "gt.tsv", "reads.tsv"]),
+                "stats_chroms_gz": (["stats", "--tsv", "{out}/s.tsv", "--block-list", "{out}/b.tsv", "--gtf", "{out}/b.gtf",
+                                     "--chromosome", paths["names"][-1], "--chromosome", paths["names"][0], "--sample", names[1],
+                                     os.path.join(d, "phased_copy.vcf.gz")], ["s.tsv", "b.tsv", "b.gtf", "stdout"]),
                 "phase_lists_chr2": (["phase", "--reference", paths["ref"], "-o", "{out}/out.vcf", "--distrust-genotypes",
                                       "--changed-genotype-list", "{out}/gt.tsv", "--output-read-list", "{out}/reads.tsv",
                                       "--ped", paths["ped"], "--recombination-list", "{out}/rec.tsv",
